@@ -303,6 +303,8 @@ class NumArr:
                 else:
                     raise ValueError("could not broadcast input array from shape (%d,) into shape (%d,)" % (len(row), len(self.data[0])))
             tgt = self.data[self._idx(key)]
+            if not isinstance(tgt, NumArr):
+                raise Undecided("row assignment into a ragged array")
             tgt._written()
             tgt._data[:] = [tgt._cast(v) for v in row]          # the row keeps its identity: whoever holds it sees the new values
             return
